@@ -142,7 +142,7 @@ pub fn fold_binop(lhs: &ExprV, op: &Op, rhs: &ExprV) -> (r: Result<ConstexprEval
 fn main() {{}}
 """
     obls = [Obl("C06.walk.unary-minus", ["C06"], fn="Expr::try_constexpr_eval[UnaryMinus]", desc="folding `-e`: the negation of the folded operand (Impossible / error propagate)"),
-            Obl("C06.walk.binop", ["C06", "C15", "C16"], fn="Expr::try_constexpr_eval[BinOp]", desc="folding `a op b`: both operands folded to numbers, the source operator mapped to its own arithmetic, operands in order; anything else is not folded")]
+            Obl("C06.walk.binop", ["C06", "C15", "C16", "C05"], fn="Expr::try_constexpr_eval[BinOp]", desc="folding `a op b`: both operands folded to numbers, the source operator mapped to its own arithmetic, operands in order; anything else is not folded")]
     obls += [Obl("C12.walk.get", ["C12", "C06"], fn="Expr::try_constexpr_eval[UnaryUnwrap]", desc="folding `get e`: a constant operand that folds to nil is rejected (the failure `get` has at run time), a present constant is that constant"),
              Obl("C12.walk.or", ["C12", "C06", "C15"], fn="Expr::try_constexpr_eval[NilEval]", desc="folding `(p) or f`: the present constant, or the folded fallback when p folds to nil")]
     return gen, obls, log
@@ -281,7 +281,7 @@ fn main() {{}}
     return gen, obls, log
 
 
-UNITS = [VUnit("c06_walk", ["C06", "C15", "C12", "C16"], "the folding walk: unary minus and binary operators over folded operands", build)]
+UNITS = [VUnit("c06_walk", ["C06", "C15", "C12", "C16", "C05"], "the folding walk: unary minus and binary operators over folded operands", build)]
 UNITS[0].assumes = ["fragments: the two arms of Expr::try_constexpr_eval; the recursive fold of sub-expressions, Value::for_type / try_negate (C06.negate) and the literal arithmetic (C06.<op>.*) are abstract callees",
                     "List folding: unit c16_list_fold"]
 UNITS.append(VUnit("c06_walk_leaves", ["C06", "C15", "C12"], "the folding walk: `!e`, nil, typeof, literal values, and what is never a constant", build_leaves))
